@@ -5,6 +5,7 @@ import (
 	"crypto/sha256"
 	"errors"
 	"fmt"
+	"github.com/crate-crypto/go-ipa/banderwagon"
 	"io"
 	"math/big"
 
@@ -316,6 +317,18 @@ func c10Units(ctx *core.Ctx) []core.Unit {
 					b := append([]byte(nil), honest...)
 					copy(b[f*32:], v)
 					c10Input(r, b, fmt.Sprintf("honest proof %d with point field %d := %s", which, f, name))
+					if f%4 == 1 {
+						// history: the substituted field has been seen by the unchecked decoders before, and the
+						// same stream is parsed again afterwards — the decision may not depend on either
+						var e banderwagon.Element
+						func() {
+							defer func() { recover() }()
+							e.SetBytesUnsafe(v)
+							e.SetBytesUncompressed(append(append([]byte(nil), v...), make([]byte, 32)...), true)
+						}()
+						c10Input(r, b, fmt.Sprintf("honest proof %d with point field %d := %s, after the unchecked decoders have seen that field", which, f, name))
+						c10Input(r, b, fmt.Sprintf("honest proof %d with point field %d := %s, parsed once more", which, f, name))
+					}
 				}
 			}
 			for name, v := range scalarSubs {
